@@ -92,3 +92,13 @@ Example C11_nonvacuous :
   get check ex_matches s Op_FULLY_CONNECTED 0 = (AK Alg_MIN_MAX_UNIFORM_QUANT, ex_drq) /\
   get check ex_matches s Op_CONV_2D 0 = (AK Alg_NO_QUANTIZE, default_ocfg).
 Proof. vm_compute. repeat split. Qed.
+
+(* a load REPLACES the rule list: after load([]) into a manager with any
+   history, every (operator, scope) resolves to "not quantized" again *)
+Theorem C11_load_forgets_previous_rules :
+  forall check matches post_init s target scope,
+    fst (step check matches post_init s RLoadEmpty) = init /\
+    get check matches (fst (step check matches post_init s RLoadEmpty)) target scope
+    = (AK Alg_NO_QUANTIZE, default_ocfg).
+Proof. intros. split; reflexivity. Qed.
+Print Assumptions C11_load_forgets_previous_rules.
